@@ -36,6 +36,7 @@ Definition parse_op (x : sexp) : op * list outcome :=
    else if head_is x "stat" then OpStat a
    else if head_is x "wstat" then OpWStat a
    else if head_is x "clunk" then OpClunk a
+   else if head_is x "stop" then OpStop
    else OpRemove a, sc).
 
 Definition KS : Type := list N * state.
@@ -50,8 +51,29 @@ Definition istep (s : state) (i : nat) : option state :=
   | None => None
   end.
 
+(* which key sess.refs.Range calls back for next (or that the pass is over) is the environment's choice and the
+   harness cannot see it: where Stop is at a [Pick] the exploration tries every choice by putting it at the
+   head of the operation's script, which is where [step] takes it from *)
+Definition with_choice (th : thread) (n : N) : thread :=
+  {| t_id := t_id th; t_prog := t_prog th; t_incall := t_incall th; t_script := OOk n false :: t_script th;
+     t_ncalls := t_ncalls th; t_calls := t_calls th; t_held := t_held th; t_log := t_log th |}.
+
+Definition isteps (s : state) (i : nat) : list state :=
+  match threads s !! i with
+  | Some th =>
+      if t_incall th then nil else
+      match t_prog th with
+      | Pick visited _ _ =>
+          flat_map (fun n =>
+              match step (set_thread s i (with_choice th (N.of_nat n))) i with Some s' => s' :: nil | None => nil end)
+            (seq 0 (S (List.length (pick_cands (refs s) visited))))
+      | _ => match step s i with Some s' => s' :: nil | None => nil end
+      end
+  | None => nil
+  end.
+
 Definition expand (active : list nat) (acc : list KS * list KS) (s : state) : list KS * list KS :=
-  match omap (istep s) active with
+  match flat_map (isteps s) active with
   | nil => (fst acc, add_state (snd acc) s)
   | ss => (fold_left add_state ss (fst acc), snd acc)
   end.
@@ -85,13 +107,6 @@ Definition obs_thread (active : list nat) (s : state) (i : nat) : sexp :=
 
 Definition obs_of (n : nat) (active : list nat) (s : state) : sexp :=
   SList (map (obs_thread active s) (seq 0 n)).
-
-Fixpoint insert_sorted (x : N * N) (l : list (N * N)) : list (N * N) :=
-  match l with
-  | nil => x :: nil
-  | y :: r => if fst x <=? fst y then x :: l else y :: insert_sorted x r
-  end.
-Definition sort_pairs (l : list (N * N)) : list (N * N) := fold_right insert_sorted nil l.
 
 Definition table_of (s : state) : sexp :=
   SList (map (fun fp =>
@@ -178,6 +193,9 @@ Definition run_case (c : sexp) : sexp :=
           match history_of ops cf s with
           | None => SList (ssym "pending" :: nil)
           | Some h =>
+              (* Stop is the server's, not a client operation: histories containing it are checked against
+                 the model state by state, not for linearizability *)
+              if existsb (fun os => match fst os with OpStop => true | _ => false end) ops then ssym "ok" else
               match lin_check reqauth h with
               | Some _ => ssym "ok"
               | None => SList (ssym "nonlin" :: nil)
